@@ -148,6 +148,14 @@ func toMask(tags []int) (mask uint32, dup int) {
 // check runs the oracles after the bubble has ended (no goroutine of the run is
 // left, so the logs are read without locks; porcupine uses real time).
 func (h *harness) check(res *kernel.Result) {
+	if h.epilogue != "" {
+		defer func() {
+			if res.Violation == nil {
+				p := strings.SplitN(h.epilogue, "|", 2)
+				res.Fail(-1, p[0], "%s", p[1])
+			}
+		}()
+	}
 	m := &mctx{pmask: h.pmask, tagCls: h.tagCls}
 	name := func(k int) string {
 		switch {
